@@ -12,7 +12,8 @@ LEVEL = "exploration"
 CODE = ["yowsup/stacks/yowstack.py:YowStack.__init__/_construct/send/receive/emitEvent/broadcastEvent/execDetached/loop/getLayerInterface/getLayer",
         "yowsup/stacks/yowstack.py:YowStackBuilder.push/pop/build/getDefaultLayers/getDefaultStack/getProtocolLayers/getCoreLayers",
         "yowsup/layers/__init__.py:YowLayer.emitEvent/broadcastEvent/onEvent/toLower/toUpper, YowParallelLayer.*, YowLayerEvent"]
-BOUNDS = {"quick": "[+ builder ops incl. implicit tuple groups; consumers inside the emitter's group] " 
+BOUNDS = {"quick": "[+ handler style {onEvent override, own decorated, inherited decorated} on depth<=2; 3 legacy constants] " 
+                   "[+ builder ops incl. implicit tuple groups; consumers inside the emitter's group] " 
                    "[+ addPostConstructLayer with 1-2 layers on depth 1..3] " 
                    "(dataflow: plus a send refused by any one layer below the top, followed by another send) stack depth 1..4, each position plain | group of 2 | group of 3; 3 declaration styles x 2 order conventions; every emitter x consumer position, detached and normal; "
                    "all 16 getDefaultLayers and all 64 getDefaultStack argument combinations; builder push/pop sequences up to 4",
